@@ -32,18 +32,17 @@ CHECKS["C13"] = {
 CHECKS["C01"] = {
     "pkg": "./c01/",
     "level": "fault_enumeration",
-    "technique": "stateful property-based testing (rapid state machine) with crash-image fault injection at every intercepted file-system operation, reference-model oracle",
-    "rule": ("rapid state machine over one kv store (1-3 families, union merger): createFamily/flush(Add|StreamWriter, sequences, empty)/compact/"
-             "deleteObsolete+cache cleanup/reopen; a directory image is taken before and after every intercepted FS operation (table create/write/close, "
+    "technique": "stateful property-based testing (rapid state machine) with crash-image fault injection at every intercepted file-system operation, reference-model oracle; harness-owned interleavings at the manifest seam and the tableCreate seam",
+    "rule": ("rapid state machine over one kv store (1-3 families, union merger): createFamily / flush(Add|StreamWriter, sequences, empty) / openWriter + commitWriter (up to 4 unfinished writers of the store at a time, committed in any order, all committed before a close) / compact / deleteObsolete+cache cleanup / storeCompact (one tick of the periodic store housekeeping Store.compact; at most one family's compaction is left to the production background goroutine and waited for) / reopen. Harness-owned interleavings: (a) at a generated manifestWrite|manifestSync (before|after) seam of a flusher commit a helper goroutine opens 1-3 further writers on families of the same store (on the unchanged tree they wait for the version-set mutex and open right after the commit), (b) an obsolete-file pass of the family at a writer's tableCreate seam. At the tableCreate seam no table may be created under a file number held by a referenced table of any family or by an unfinished writer. A directory image is taken before and after every intercepted FS operation (table create/write/close, "
              "manifest create/write/sync/close, CURRENT tmp write + rename, OPTIONS write, mkdir, remove, listDir) of every operation; each recovered image "
-             "must equal the model before or after the single operation in flight, then takes new flushes+compaction with fresh file numbers. "
+             "must equal the model before or after the single operation in flight, then takes new flushes+compaction with fresh file numbers. Quick tier: an image is copied at every 3rd FS point (generated phase per operation), 10 per crash action recovered. "
              "non-trivial = image inside an operation (any intercepted FS op other than the leading listDir); distinct = (history, image tag) hash"),
     "level_text": ("Fault enumeration over generated histories: in the thorough tier every intercepted crash point of every generated history is recovered through the "
                    "production open path (quick tier: a generated sample of 10 per crash action) and compared with an independent model; this matches the property's "
                    "quantifier (every history x every point between two FS operations) up to the sampled set of histories."),
     "level_note": ("Process-crash model: an image is a copy of the directory at the hook (user-space buffers lost, kernel state kept). FS operations inside ltoml.EncodeToml and the file lock "
-                   "are not split further. Power-loss reordering is out of scope. Torn (short) writes are not generated in this check."),
-    "assumptions": ["crash = process death, not power loss", "tmpfs scratch directory", "rollup bookkeeping crash points are covered by C04's machinery, not here"],
+                   "are not split further. Power-loss reordering is out of scope. Torn (short) writes are not generated in this check. Windows are only opened inside flusher commits (flush, commitWriter), not inside compaction commits: a compaction runs its trailing obsolete-file pass after the commit, and letting the helper run next to it would make images depend on scheduling."),
+    "assumptions": ["crash = process death, not power loss", "tmpfs scratch directory", "rollup bookkeeping crash points are covered by C04's machinery, not here", "several unfinished flushers per store and family are legal (Family.NewFlusher has no exclusivity; flush, compaction outputs and rollup outputs coexist in production)", "the helper goroutine of a window gets 30 ms at the seam; on the unchanged tree it blocks on the version-set mutex, so the run does not depend on the timer (on a changed allocator detection may be labelled flaky by rapid)"],
     "tests": [
         {"name": "TestCrashRecovery", "quick": 40, "thorough": {"checks": 150, "shards": 16}},
     ],
